@@ -102,6 +102,8 @@ def generate(rs, tier):
     batch_sizes=[g.randrange(1, 12) for _ in range(n)],
     stay_bias=g.choice([0.0, 0.5, 0.8]),
   )
+  if fail_at is not None and g.random() < 0.4:
+    knobs['resumable'] = True
   if kind == 'prefetch_to_device' and knobs['fail_cls'] == 'BaseErr':
     # a generator has no thread to lose: a BaseException simply unwinds through it (nothing is promised to be delivered first)
     knobs['fail_cls'] = 'SrcErrB'
@@ -169,6 +171,7 @@ class Source:
     self.pos = 0
     self.pulls = 0
     self.reuse = None
+    self.resumable = False
 
   def __iter__(self):
     return self
@@ -181,8 +184,10 @@ class Source:
       self.res.fault('source_exception')
       self.pos += 1  # a second pull after the failure ends the stream
       raise self.exc
-    if self.pos >= len(self.items) or (self.fail_at is not None and self.pos > self.fail_at):
+    if self.pos >= len(self.items) or (self.fail_at is not None and self.pos > self.fail_at and not self.resumable):
       raise StopIteration
+    if self.fail_at is not None and self.pos > self.fail_at:
+      self.res.probe('pulled_after_source_error')
     x = self.items[self.pos]
     self.pos += 1
     if self.reuse is not None:
@@ -318,6 +323,8 @@ def execute(plan):
       return None
 
   src = Source(items, k['fail_at'], exc, None if ptd else sc, res)
+  # a reader that fails on one corrupt record and would go on with the next one if asked again
+  src.resumable = bool(k.get('resumable'))
   if k.get('reuse_buffer') and items:
     src.reuse = {'x': np.zeros_like(items[0]['x'])}
     res.probe('source_reuses_buffer')
